@@ -245,8 +245,119 @@ class C21(Prop):
                 self.bad.append(("replace(D(f), {f: img}) evaluates to %s, D(img) to %s" % (vr[:3], vd[:3]), dict(kind="deriv-value:" + name, expr=desc)))
         ev.cov["derivative_replace_checks"] = nchk
 
+    def form_oracle(self, ctx, ev):
+        """replace on Forms and FormSums: per integral (type, subdomain) the integrand after replace equals replace of the integrand (also when
+        an integrand folds to a literal or vanishes); a FormSum keeps each surviving component with ITS weight"""
+        import ufl
+        from ufl.algorithms import replace
+        from utils import LagrangeElement
+        rng = random.Random(ctx.seed * 5003 + 21)
+        n = 40 if ctx.quick else 600
+        nchk = 0
+        for k in range(n):
+            cell = ufl.triangle
+            mesh = ufl.Mesh(LagrangeElement(cell, 1, (2,)))
+            V = ufl.FunctionSpace(mesh, LagrangeElement(cell, 1))
+            f, g, h = ufl.Coefficient(V), ufl.Coefficient(V), ufl.Coefficient(V)
+            x = ufl.SpatialCoordinate(mesh)
+            lit = lambda: ufl.as_ufl(rng.choice([2, 3, 2.5, 0.5]))
+            integrands = [f * g, f, g * h + f, f * f, ufl.sin(f) * g, f * x[0], g]
+            rng.shuffle(integrands)
+            meas = [ufl.dx(domain=mesh), ufl.ds(domain=mesh), ufl.dx(domain=mesh, subdomain_id=2), ufl.ds(domain=mesh, subdomain_id=1), ufl.dS(domain=mesh)]
+            terms = [(integrands[i], meas[i % len(meas)]) for i in range(rng.randint(2, 4))]
+            F = None
+            for e, mm in terms:
+                e = e("+") if mm.integral_type().startswith("interior") else e
+                F = e * mm if F is None else F + e * mm
+            mapping = {}
+            for c in (f, g, h):
+                r = rng.random()
+                if r < 0.35:
+                    mapping[c] = lit()
+                elif r < 0.5:
+                    mapping[c] = ufl.as_ufl(0)
+                elif r < 0.7:
+                    mapping[c] = ufl.Coefficient(V)
+            if not mapping:
+                mapping[f] = lit()
+            try:
+                R = replace(F, mapping)
+            except Exception as ex:  # noqa
+                self.bad.append(("replace on a form raises %s" % type(ex).__name__, dict(kind="form-raise", expr=str(F)[:200])))
+                continue
+
+            def table(form_or_pairs):
+                t = {}
+                for itype, sid, e in form_or_pairs:
+                    if isinstance(e, ufl.classes.Zero):
+                        continue
+                    key = (itype, str(sid))
+                    t[key] = e if key not in t else t[key] + e
+                return t
+            want = table([(I.integral_type(), I.subdomain_id(), replace(I.integrand(), mapping)) for I in F.integrals()])
+            got = table([(I.integral_type(), I.subdomain_id(), I.integrand()) for I in (R.integrals() if hasattr(R, "integrals") else [])])
+            nchk += 1
+            pt = (0.25, 0.5)
+            def value(e):
+                from ufl.algorithms.analysis import extract_type
+                m = {c_: 1.0 + 0.37 * (i + 1) for i, c_ in enumerate(sorted(extract_type(e, ufl.classes.Coefficient), key=lambda c_: c_.count()))}
+                import ufl.classes as C
+                strip = e
+                return float(ufl.algorithms.replace(strip, {})(pt, m)) if not any(isinstance(o, C.Restricted) for o in ufl.corealg.traversal.unique_pre_traversal(e)) else None
+            if set(want) != set(got):
+                self.bad.append(("replace on a form drops or invents integrals: integrals %s expected, %s found" % (sorted(want), sorted(got)), dict(kind="form-integrals", expr=str(F)[:200], mapping=str({str(a): str(b) for a, b in mapping.items()}))))
+                continue
+            for key in want:
+                try:
+                    a, b = value(want[key]), value(got[key])
+                except Exception:  # noqa
+                    continue
+                if a is not None and b is not None and abs(a - b) > 1e-9 * max(1.0, abs(a)):
+                    self.bad.append(("replace on a form changes the integrand of integral %s: %s instead of %s" % (key, b, a), dict(kind="form-value", expr=str(F)[:200])))
+                    break
+            # FormSum with non-uniform weights, one component vanishing under the mapping
+            try:
+                from ufl.classes import FormSum, Cofunction, Action, Matrix
+                c1, c2, c3 = Cofunction(V.dual()), Cofunction(V.dual()), Cofunction(V.dual())
+                v = ufl.TestFunction(V)
+                if k % 3 == 2:
+                    # a component that becomes a ZeroBaseForm (Action of a bilinear form on a coefficient mapped to zero), not last
+                    u_ = ufl.TrialFunction(V)
+                    comps = [c1, c2, c3]
+                    comps.insert(rng.randrange(0, 3), Action(u_ * v * ufl.dx(domain=mesh), f))
+                    zero_of = f
+                elif k % 2 == 0:
+                    comps = [f * v * ufl.dx(domain=mesh), c1, g * v * ufl.dx(domain=mesh), c2, c3]
+                    rng.shuffle(comps)
+                    zero_of = rng.choice([f, g])
+                else:
+                    # ONE variational component that vanishes as a whole, not in the last position
+                    comps = [c1, c2, c3]
+                    comps.insert(rng.randrange(0, 3), f * g * v * ufl.dx(domain=mesh) + f * v * ufl.ds(domain=mesh))
+                    zero_of = f
+                ws = [2, 3, 5, 7, 11][:len(comps)]
+                S = FormSum(*zip(comps, ws))
+                RS = replace(S, {zero_of: ufl.as_ufl(0)})
+                # reference: FormSum's OWN components (it merges variational forms, folding their weights in) replaced one by one
+                want_pairs = []
+                for c_, w_ in zip(S.components(), S.weights()):
+                    rc = replace(c_, {zero_of: ufl.as_ufl(0)}) if not isinstance(c_, Cofunction) else c_
+                    if (hasattr(rc, "integrals") and not rc.integrals()) or isinstance(rc, ufl.classes.ZeroBaseForm) or rc == 0:
+                        continue
+                    want_pairs.append((rc, w_))
+                got_pairs = list(zip(RS.components(), RS.weights())) if isinstance(RS, FormSum) else [(RS, 1)]
+                got_pairs = [(a_, w_) for a_, w_ in got_pairs if not ((hasattr(a_, "integrals") and not a_.integrals()) or isinstance(a_, ufl.classes.ZeroBaseForm))]     # an empty Form contributes nothing
+                nchk += 1
+                if [(repr(a_), w_) for a_, w_ in want_pairs] != [(repr(a_), w_) for a_, w_ in got_pairs]:
+                    self.bad.append(("replace on a FormSum with a vanishing component changes the weights of the others: %s instead of %s" % ([w_ for _, w_ in got_pairs], [w_ for _, w_ in want_pairs]),
+                                     dict(kind="formsum-weights", expr=str(S)[:200])))
+            except Exception:  # noqa
+                pass
+        ev.cov["form_replace_checks"] = nchk
+
     def oracle(self, ctx, ev):
         self.deriv_oracle(ctx, ev)
+        self.form_oracle(ctx, ev)
         out, seen = [], set()
         for w, d in getattr(self, "bad", []):
             if d["kind"] in seen:
